@@ -20,7 +20,7 @@ PROP = dict(
 )
 META = dict(
     text=("Lean theorems: a (multi-document) request under any storage faults publishes either nothing (and stores nothing) or exactly its new commits, once each, in write order; an announced block is stored; rolled-back calls publish nothing; "
-          "the bus delivers to every subscriber exactly the matching publications in publication order whatever other subscribers do (FIFO invariant by induction over the command queue). "
+          "the bus delivers to every subscriber exactly the matching publications in publication order whatever other subscribers do (FIFO invariant by induction over the command queue); a branchable collection publishes exactly the document-level then the collection-level commit per write or nothing; over ANY command history what a subscriber received is an in-order sub-sequence of the publications (no duplicate, nothing invented), nothing reaches a subscriber without a subscription or after close, and the whole lifetime subscribe..unsubscribe receives exactly the matching publications of that stretch; a filtered subscription yields one result per passing publication. "
           "Tied to /repo by the regenerated obligation on publication sites and by running generated histories against the real bus and database and the compiled bus model."),
     design_ref="DESIGN.md section 8, C20",
     note="Trusted: Lean kernel; harness/events; extractor. Goroutine scheduling of the real bus is sampled, not modelled; unbounded buffers in the model.",
